@@ -354,6 +354,10 @@ func c15Op(c *WCase, res *WResult) {
 			v.Attributes |= attributes.EFI_VARIABLE_APPEND_WRITE
 			op = strings.TrimSuffix(op, ".append")
 		}
+		if strings.HasSuffix(op, ".highmask") {
+			v.Attributes |= 0x80000100 // bits the specification has not assigned yet
+			op = strings.TrimSuffix(op, ".highmask")
+		}
 		value := bytes.Repeat([]byte{0xa5, 0x5a}, 50)
 		if strings.HasSuffix(op, ".empty") { // a value of no bytes: the file holds the attribute word only
 			value = nil
@@ -507,7 +511,7 @@ func checkC15(r *mon.Run) {
 	r.Exhaustive()
 	useFakeEfivarsDir()
 	var ops []string
-	ops = append(ops, "sign.pkcs7", "sign.authenticode", "sign.authenticode.reader", "var.sign", "write.object", "write.legacy", "write.object.append", "write.legacy.append", "write.object.empty", "write.legacy.empty", "write.object.big", "write.legacy.big", "write.object.immutable", "write.signedupdate.fs", "write.signedupdate.signer", "read.object", "read.legacy", "read.object.big", "read.legacy.big", "file.write", "file.read", "typed.read.object", "typed.read.legacy")
+	ops = append(ops, "sign.pkcs7", "sign.authenticode", "sign.authenticode.reader", "var.sign", "write.object", "write.legacy", "write.object.append", "write.legacy.append", "write.object.empty", "write.legacy.empty", "write.object.big", "write.legacy.big", "write.object.immutable", "write.object.highmask", "write.legacy.highmask", "write.signedupdate.fs", "write.signedupdate.signer", "read.object", "read.legacy", "read.object.big", "read.legacy.big", "file.write", "file.read", "typed.read.object", "typed.read.legacy")
 	imgs := c15Images
 	if !r.Thorough() {
 		imgs = []string{"test.pecoff", "signed", "HelloWorld"}
@@ -550,9 +554,9 @@ func checkC15(r *mon.Run) {
 		case op == "sign.authenticode.reader":
 			modes = []string{"error", "partial-error", "short-read"}
 		case strings.HasPrefix(op, "write.") && !strings.Contains(op, "signer"):
-			modes = []string{"error", "short", "short-error"}
+			modes = []string{"error", "short", "short-error", "full-error"}
 		case op == "file.write":
-			modes = []string{"error", "short", "short-error"}
+			modes = []string{"error", "short", "short-error", "full-error"}
 		case strings.HasPrefix(op, "typed."):
 			modes = []string{"error", "short-error", "short-read", "eof", "half-eof"}
 		case op == "file.read":
